@@ -104,12 +104,12 @@ impl Engine for Multi {
 
 fn make_engine(prop: &str) -> Option<Box<dyn Engine>> {
     match prop {
-        "C02" | "C13" | "C16" | "C19" => Some(Box::new(Multi {
+        "C02" | "C12" | "C13" | "C16" | "C19" => Some(Box::new(Multi {
             hist: histx::HistX::new(),
             crash: crashx::CrashX::new(),
             sched: schedx::SchedX::new(),
         })),
-        "C01" | "C05" | "C06" | "C09" | "C10" | "C11" | "C12" => Some(Box::new(histx::HistX::new())),
+        "C01" | "C05" | "C06" | "C09" | "C10" | "C11" => Some(Box::new(histx::HistX::new())),
         "C03" | "C04" | "C14" | "C17" => Some(Box::new(crashx::CrashX::new())),
         "C15" | "C20" => Some(Box::new(schedx::SchedX::new())),
         "C07" | "C08" | "C18" => Some(Box::new(proofx::ProofX::new())),
